@@ -165,7 +165,11 @@ func genSelect(r *Rng, t *TableDef, u *Universe, o QGenOpts) []string {
 		sel = append(sel, fmt.Sprintf("IF(%s, %s) AS g1", genPred(r, u, 0).SQL(), PickOne(r, names)))
 	}
 	if o.Shift && r.Bool(0.12) {
-		sel = append(sel, fmt.Sprintf("SHIFT(%s, '-%s') AS g2", PickOne(r, names), durSQL(time.Duration(t.ResNanos)*time.Duration(r.Range(1, 3)))))
+		sign := "-"
+		if r.Bool(0.3) {
+			sign = "" // a positive offset: values move into the past
+		}
+		sel = append(sel, fmt.Sprintf("SHIFT(%s, '%s%s') AS g2", PickOne(r, names), sign, durSQL(time.Duration(t.ResNanos)*time.Duration(r.Range(1, 3)))))
 	}
 	if r.Bool(0.1) && !o.NoConst {
 		sel = append(sel, fmt.Sprintf("%s * 2 AS g3", PickOne(r, names)))
